@@ -91,7 +91,7 @@ func journalArgs(args []driver.Value) []interface{} {
 	out := make([]interface{}, len(args))
 	for i, a := range args {
 		if b, ok := a.([]byte); ok {
-			a = append([]byte(nil), b...)
+			a = cloneBytes(b)
 		}
 		out[i] = a
 	}
